@@ -81,6 +81,13 @@ NOTES = {
     "C02-s10": "changes only what `run --dry-run` announces — that is C05's property (status/dry-run/run agree), and C05 reports it; C02 is about real runs",
     "C05-s9": "first missed: BFS also from a project built by jobs the scheduler still remembers as completed",
     "C06-s10": "a path-aliasing defect (C03 reports it); C06's workflows spell every file one way",
+    "C13-s10": "C13 first missed it (C14 caught it): process creation failing with a ValueError (NUL in the script), not only with an OSError",
+    "C14-s9": "first a harness error: the change awaits `run_in_executor`, whose real worker thread woke the virtual loop from outside (`deque mutated during iteration`). The virtual loop now runs executor functions inline with the result delivered one iteration later — then reported (duplicate ids)",
+    "C14-s10": "first missed: an enqueue and a state query in one write; every task_states answer must contain every id acknowledged before it was written",
+    "C11-s10": "C11 first missed it (C13 caught it): real-process tier now gives the cancelled / timed-out task a dependent that must never run; a dependent starting after the pool killed its dependency is a C11 violation whatever the shell returned",
+    "C09-s9": "C09 first missed it (C07 caught it): scenarios whose first target already has a failed job from an earlier invocation",
+    "C09-s10": "first missed: files opened with mode 'x' were not seen as writes by the file hooks, so the crash points inside that write were missing",
+    "C07-s10": "a defect of the local pool's own dependency wait (C11 reports it); C07's local part checks what gwf asks the pool for",
     "C07-s8": "first missed: the scheduler moves while gwf is submitting (one environment step before the k-th scheduler command of a run)",
 }
 
